@@ -613,6 +613,18 @@ Section Main.
 
   Inductive step := Continue (st : cstate) (consumed : nat) | Stop (o : outcome).
 
+  (* a location: hwloc_calc_process_location_as_set on the output sets of the state
+     ("ignored unrecognized argument" when it returns -1) *)
+  Definition loc_step (st : cstate) (arg : list N) : res step :=
+    let* r := process_arg_d st arg in
+    match r with
+    | (m, LSets x) => Ok (Continue (set_sets st (apply_mode2 m (s_sets st) x) (N.succ (s_nloc st))) 0)
+    | (_, LIgnored) => Ok (Continue st 0)
+    | (_, LAbort) => Ok (Stop Aborted)
+    | (_, LHuge) => Ok (Stop Huge)
+    | (_, LUnmodelled) => Ok (Stop (Unmodelled 2))
+    end.
+
   (* one iteration of the second while(argc >= 1) loop of main() *)
   Definition main_step (st : cstate) (arg : list N) (next : option (list N)) : res step :=
     let a := content arg in
@@ -673,15 +685,7 @@ Section Main.
       else if is_opt ["--taskset"]%string a then
         upd (fun st => CS (s_verbose st) (s_li st) (s_lo st) (s_ni st) (s_no st) (s_oo st) (s_single st) (s_sep st) 4 (s_cif st) (s_largest st) (s_nstr st) (s_istr st) (s_hstr st) (s_sets st) (s_nloc st))
       else Ok (Stop (Exit 1 []))                   (* Unrecognized option *)
-    else
-      let* r := process_arg_d st arg in
-      match r with
-      | (m, LSets x) => Ok (Continue (set_sets st (apply_mode2 m (s_sets st) x) (N.succ (s_nloc st))) 0)
-      | (_, LIgnored) => Ok (Continue st 0)
-      | (_, LAbort) => Ok (Stop Aborted)
-      | (_, LHuge) => Ok (Stop Huge)
-      | (_, LUnmodelled) => Ok (Stop (Unmodelled 2))
-      end.
+    else loc_step st arg.
 
   Fixpoint main_loop (st : cstate) (args : list (list N)) {struct args} : res (cstate + outcome) :=
     match args with
@@ -774,6 +778,99 @@ Section Main.
           match print_set (s_cof st) (if s_no st then ns else cs) with
           | Some t => Exit 0 (t ++ NL)
           | None => Unmodelled 4
+          end
+        end
+      end
+    end.
+
+  (* ---- stdin mode: "process stdin arguments line-by-line" ---- *)
+  (* strtok(line, " \n"): the tokens of a line, each a NUL-terminated string *)
+  Fixpoint tokenize (line cur : list N) : list (list N) :=
+    match line with
+    | [] => match cur with [] => [] | _ => [rev cur ++ [0]] end
+    | c :: t => if (c =? 32) || (c =? 10)
+                then match cur with [] => tokenize t [] | _ => (rev cur ++ [0]) :: tokenize t [] end
+                else tokenize t (c :: cur)
+    end.
+
+  (* the inner while(1) over the tokens: every token is a location, also one that starts with '-' *)
+  Fixpoint line_fold (st : cstate) (toks : list (list N)) : res (cstate + outcome) :=
+    match toks with
+    | [] => Ok (inl st)
+    | t :: tl =>
+      let* r := loc_step st t in
+      match r with
+      | Stop o => Ok (inr o)
+      | Continue st' _ => line_fold st' tl
+      end
+    end.
+
+  (* hwloc_bitmap_zero(cpuset); hwloc_bitmap_zero(nodeset); at the start of every line.
+     [zero_ns = false] is the variant that forgets the nodeset (seeded change C20d). *)
+  Definition zero_sets_gen (zero_ns : bool) (st : cstate) : cstate :=
+    set_sets st (bs_empty, if zero_ns then bs_empty else snd (s_sets st)) 0.
+  Definition zero_sets := zero_sets_gen true.
+
+  (* the outer while(1): the SAME bitmaps are reused from line to line; the value returned by
+     hwloc_calc_output is ignored; stdout is the concatenation of what each line prints *)
+  Fixpoint stdin_loop_gen (zero_ns : bool) (st : cstate) (lines : list (list (list N))) (nlv ilv : lvl_opt) (hlv : option (list Z))
+    : res outcome :=
+    match lines with
+    | [] => Ok (Exit 0 [])
+    | toks :: rest =>
+      let* r := line_fold (zero_sets_gen zero_ns st) toks in
+      match r with
+      | inr o => Ok o
+      | inl st' =>
+        match calc_output st' nlv ilv hlv with
+        | Exit _ txt =>
+          let* o := stdin_loop_gen zero_ns st' rest nlv ilv hlv in
+          match o with
+          | Exit rc t2 => Ok (Exit rc (txt ++ t2))
+          | x => Ok x
+          end
+        | x => Ok x
+        end
+      end
+    end.
+  Definition stdin_loop := stdin_loop_gen true.
+
+  (* main() after the topology options; [stdin]: the lines read when no location was given on the command line *)
+  Definition calc_main_stdin (args : list (list N)) (stdin : list (list N)) : res outcome :=
+    let* r := main_loop cs0 args in
+    match r with
+    | inr o => Ok o
+    | inl st =>
+      let* nlv := opt_level (s_nstr st) in
+      match nlv with
+      | LoFail => Ok (Exit 0 [])
+      | LoUnmodelled => Ok (Unmodelled 5)
+      | _ =>
+        let* ilv := opt_level (s_istr st) in
+        match ilv with
+        | LoFail => Ok (Exit 0 [])
+        | LoUnmodelled => Ok (Unmodelled 5)
+        | _ =>
+          let* hl := (match s_hstr st with
+                      | None => Ok (Some (Some None))
+                      | Some v => let* r := hier_levels (split_dots (content v) []) in
+                                  Ok (match r with
+                                      | None => None
+                                      | Some None => Some None
+                                      | Some (Some zs) => Some (Some (Some zs))
+                                      end)
+                      end) in
+          match hl with
+          | None => Ok (Unmodelled 5)
+          | Some None => Ok (Exit 0 [])
+          | Some (Some hlv) =>
+            if 0 <? s_nloc st then Ok (calc_output st nlv ilv hlv)
+            else
+              let* o := stdin_loop st (map (fun l => tokenize l []) stdin) nlv ilv hlv in
+              match o with
+              | Exit rc t => Ok (Exit rc ((if (0 <=? s_verbose st)%Z then WAITING else []) ++ t))
+              | x => Ok x
+              end
           end
         end
       end
